@@ -78,7 +78,7 @@ type Unit struct {
 
 // Cond is one Where/Not/Or call (or a Clauses(expr...) call adding conditions).
 type Cond struct {
-	Op string `json:"op"` // where not or clauses
+	Op string `json:"op"` // where not or clauses whereclause (Clauses(clause.Where{Exprs})) scope (Scopes(func(db){return db.Where(…)}))
 	U  Unit   `json:"u"`
 }
 
@@ -129,7 +129,7 @@ type Chain struct {
 	Lock      bool     `json:"lock,omitempty"`
 	Returning bool     `json:"returning,omitempty"`
 
-	Fin      string `json:"fin,omitempty"` // find first take last count pluck scan rows
+	Fin      string `json:"fin,omitempty"` // find first take last count pluck scan row rows batches
 	Inline   *Unit  `json:"inline,omitempty"`
 	PluckCol string `json:"pluckcol,omitempty"`
 
@@ -154,6 +154,23 @@ type Chain struct {
 	// Kind "firstor": Fin "firstorinit" | "firstorcreate" with Rows[0] as the struct
 	// condition (passed through Where, or inline when InlineCond).
 	InlineCond bool `json:"inlinecond,omitempty"`
+	// FirstOr*: Attrs(struct) / Assign(struct) and an explicit Model(&X{}) before the finisher
+	Attrs     *Rec `json:"attrs,omitempty"`
+	Assign    *Rec `json:"assign,omitempty"`
+	WithModel bool `json:"withmodel,omitempty"`
+
+	Distinct bool `json:"distinct,omitempty"` // Distinct() before Select
+	// AllowGlobal: the chain starts with Session(&Session{AllowGlobalUpdate: true})
+	AllowGlobal bool `json:"allowglobal,omitempty"`
+	// Cols/ColMode: Select(cols…) / Omit(cols…) restricting the columns a create or update writes
+	Cols    []string `json:"cols,omitempty"`
+	ColMode string   `json:"colmode,omitempty"` // select | omit
+	// value forms: Create(&[]*X{…}), Create(&map)/Create(&[]map), Updates(&X{…})
+	PtrElems bool `json:"ptrelems,omitempty"`
+	MapPtr   bool `json:"mapptr,omitempty"`
+	SetPtr   bool `json:"setptr,omitempty"`
+	// FindBatch: batch size of Fin "batches" (FindInBatches)
+	FindBatch int `json:"findbatch,omitempty"`
 
 	DelRec *Rec `json:"delrec,omitempty"` // Delete(&X{ID: n})
 
@@ -293,7 +310,7 @@ func (u Unit) String() string {
 func condsString(cs []Cond) string {
 	var b strings.Builder
 	for _, c := range cs {
-		name := map[string]string{"where": "Where", "not": "Not", "or": "Or", "clauses": "Clauses"}[c.Op]
+		name := map[string]string{"where": "Where", "not": "Not", "or": "Or", "clauses": "Clauses", "whereclause": "Clauses(clause.Where)", "scope": "Scopes:Where"}[c.Op]
 		b.WriteString("." + name + "(" + c.U.String() + ")")
 	}
 	return b.String()
@@ -305,6 +322,9 @@ func (c *Chain) String() string {
 	b.WriteString("db")
 	if c.SkipHooks {
 		b.WriteString(".Session(SkipHooks)")
+	}
+	if c.AllowGlobal {
+		b.WriteString(".Session(AllowGlobalUpdate)")
 	}
 	switch {
 	case c.Kind == "raw" || c.Kind == "exec" || c.Kind == "save" || c.Kind == "firstor":
@@ -325,6 +345,21 @@ func (c *Chain) String() string {
 	}
 	if c.Unscoped {
 		b.WriteString(".Unscoped()")
+	}
+	if c.Distinct {
+		b.WriteString(".Distinct()")
+	}
+	if c.ColMode != "" {
+		b.WriteString("." + strings.Title(c.ColMode) + "(" + strings.Join(c.Cols, ",") + ")")
+	}
+	if c.PtrElems {
+		b.WriteString("[ptr elems]")
+	}
+	if c.MapPtr {
+		b.WriteString("[map ptr]")
+	}
+	if c.SetPtr {
+		b.WriteString("[value ptr]")
 	}
 	if len(c.SelCols) > 0 {
 		b.WriteString(".Select(" + strings.Join(c.SelCols, ",") + ")")
@@ -399,6 +434,8 @@ func (c *Chain) String() string {
 		case "":
 		case "pluck":
 			b.WriteString(".Pluck(" + c.PluckCol + ")")
+		case "batches":
+			fmt.Fprintf(&b, ".FindInBatches(dest, %d)", c.FindBatch)
 		default:
 			b.WriteString("." + strings.Title(c.Fin) + "(dest" + inline + ")")
 		}
@@ -450,6 +487,15 @@ func (c *Chain) String() string {
 		}
 	case "firstor":
 		fn := map[string]string{"firstorinit": "FirstOrInit", "firstorcreate": "FirstOrCreate"}[c.Fin]
+		if c.WithModel {
+			b.WriteString(".Model(&" + c.Rows[0].Table + "{})")
+		}
+		if c.Attrs != nil {
+			b.WriteString(".Attrs(" + c.Attrs.String() + ")")
+		}
+		if c.Assign != nil {
+			b.WriteString(".Assign(" + c.Assign.String() + ")")
+		}
 		if c.InlineCond {
 			b.WriteString("." + fn + "(&" + c.Rows[0].Table + "{}, " + c.Rows[0].String() + ")")
 		} else {
